@@ -102,6 +102,8 @@ type w1 struct {
 	sim    *simrt.Sim
 	c      *simrt.Case
 	prop   string
+	// C11: the sweep request that is waiting for its reply right now ("" = none)
+	sweepInFlight string
 	s3     *sims3.Store
 	s3r    *sims3.Store // read replica (C44)
 	inner  *metadata.InMemoryStore
